@@ -68,28 +68,57 @@ def plan(tier):
             "slice_timeout_s": 400}
 
 
+def _declared_symbols(node):
+    """Identity set of every symbol the written routine will declare or
+    see: all scopes inside the enclosing Routine (the writer flattens inner
+    scopes into the routine, renaming clashes - references hold the symbol
+    object, so they follow) plus the enclosing container/file scopes."""
+    from psyclone.psyir.nodes import Routine, ScopingNode
+    top = node.ancestor(Routine, include_self=True)
+    out = set()
+    if top is not None:
+        for scope in top.walk(ScopingNode):
+            out.update(id(s) for s in scope.symbol_table.symbols)
+        cur = top.parent
+    else:
+        cur = node
+    while cur is not None:
+        if isinstance(cur, ScopingNode):
+            out.update(id(s) for s in cur.symbol_table.symbols)
+        cur = cur.parent
+    return out
+
+
 def check_bindings(root):
-    """Every Reference resolves, by scoped lookup from where it stands, to
-    the very symbol it holds (no capture after renaming/merging)."""
-    from psyclone.psyir.nodes import Reference
+    """Every Reference must hold a symbol that the written routine declares
+    (in any of its scopes) or sees in an enclosing scope.  A reference to a
+    symbol that is in none of them is written by *name* only: if that name
+    resolves to another symbol it has been captured, otherwise it is
+    undeclared."""
+    from psyclone.psyir.nodes import Reference, Routine
+    cache = {}
     for ref in root.walk(Reference):
         sym = ref.symbol
-        try:
-            scope = ref.scope
-        except Exception:
+        if type(sym).__name__ in ("IntrinsicSymbol",):
+            continue
+        top = ref.ancestor(Routine)
+        key = id(top)
+        if key not in cache:
+            cache[key] = _declared_symbols(ref)
+        if id(sym) in cache[key]:
             continue
         try:
+            scope = ref.scope
             found = scope.symbol_table.lookup(sym.name)
         except KeyError:
-            # intrinsics and routine symbols of calls may legitimately not
-            # be in any table
-            if type(sym).__name__ in ("IntrinsicSymbol", "RoutineSymbol"):
+            if type(sym).__name__ == "RoutineSymbol":
+                # routine symbols of calls may legitimately be nowhere
                 continue
             return ("reference-to-symbol-not-in-scope",
                     {"name": sym.name, "kind": type(sym).__name__})
-        if found is not sym:
-            if type(sym).__name__ in ("IntrinsicSymbol",):
-                continue
+        except Exception:
+            continue
+        if found is not sym and not _same_import(found, sym):
             return ("reference-captured-by-another-symbol",
                     {"name": sym.name})
     return check_declaration_links(root)
@@ -117,6 +146,9 @@ def check_declaration_links(root):
     from psyclone.psyir.symbols import DataSymbol, Symbol
 
     def resolves(table, sym, what, owner):
+        if id(sym) in declared.setdefault(
+                id(table), _declared_symbols(table.node)):
+            return None
         try:
             found = table.lookup(sym.name)
         except KeyError:
@@ -142,6 +174,7 @@ def check_declaration_links(root):
                 return bad
         return None
 
+    declared = {}
     for scope in root.walk(ScopingNode):
         table = scope.symbol_table
         for sym in table.symbols:
